@@ -114,6 +114,10 @@ var baselineFields = func() map[string]bool {
 	return m
 }()
 
+// inlineMinimal: second attempt after a failed rewrite - expand only the de-anchored helpers of the reference tree (the
+// rules assume those are expanded) and leave everything else as written.
+var inlineMinimal bool
+
 // renamedAnchors: old full name -> new full name of a function of the reference tree that was (only) renamed.
 var renamedAnchors = map[string]string{}
 
@@ -231,17 +235,22 @@ func flattenHelpers(pkgs []*packages.Package) (map[string][]byte, []string) {
 		if baselineFuncs[obj.FullName()] {
 			continue
 		}
+		if inlineMinimal && !isDeanchored(obj.FullName()) {
+			continue
+		}
 		if why := in.notInlinable(obj, fd); why != "" {
 			in.skipped[obj.FullName()] = why
 			continue
 		}
 		in.helpers[obj] = true
 	}
-	in.collectLitVars()
-	for _, p := range pkgs {
-		if strings.HasPrefix(p.PkgPath, modulePath) {
-			for _, f := range p.Syntax {
-				in.unrollLiteralRanges(p, f)
+	if !inlineMinimal {
+		in.collectLitVars()
+		for _, p := range pkgs {
+			if strings.HasPrefix(p.PkgPath, modulePath) {
+				for _, f := range p.Syntax {
+					in.unrollLiteralRanges(p, f)
+				}
 			}
 		}
 	}
@@ -515,7 +524,7 @@ func (in *inliner) shapeOf(p *packages.Package, call *ast.CallExpr) *calleeShape
 		if !in.helpers[fn] {
 			// a few library functions taking a callback are expanded from a model of their documented behaviour when the
 			// callback is a literal (so that `slices.ContainsFunc(xs, func...)` reads like the loop it replaces)
-			if fn.Pkg() != nil && fn.Pkg().Path() == "slices" && len(call.Args) == 2 {
+			if !inlineMinimal && fn.Pkg() != nil && fn.Pkg().Path() == "slices" && len(call.Args) == 2 {
 				_, isLit := call.Args[1].(*ast.FuncLit)
 				if id, isId := call.Args[1].(*ast.Ident); isId && !isLit {
 					if av, ok := p.TypesInfo.Uses[id].(*types.Var); ok && in.litVars[av] != nil && in.litVars[av].kind == "lit" {
@@ -2156,11 +2165,18 @@ func (in *inliner) expand(p *packages.Package, f *ast.File, call *ast.CallExpr, 
 		cb.List = keep
 	}
 	rewriteReturns(cb, label, outs, resultNames)
+	if len(after) > 0 {
+		// the deferred calls refer to the helper's parameters: keep those in scope around the one-trip loop
+		inner := append(append([]ast.Stmt{}, cb.List...), &ast.BranchStmt{Tok: token.BREAK, Label: ast.NewIdent(label)})
+		loop := &ast.LabeledStmt{Label: ast.NewIdent(label), Stmt: &ast.ForStmt{Body: &ast.BlockStmt{List: inner}}}
+		outer := append(append(append([]ast.Stmt{}, body...), loop), after...)
+		pre = append(pre, &ast.BlockStmt{List: outer})
+		return pre, outs, true
+	}
 	body = append(body, cb.List...)
 	body = append(body, &ast.BranchStmt{Tok: token.BREAK, Label: ast.NewIdent(label)})
 	loop := &ast.LabeledStmt{Label: ast.NewIdent(label), Stmt: &ast.ForStmt{Body: &ast.BlockStmt{List: body}}}
 	pre = append(pre, loop)
-	pre = append(pre, after...)
 	return pre, outs, true
 }
 
